@@ -29,7 +29,8 @@ CONSTANTS Wal,         \* sequence of samples <<series, k>> in WAL order
           Targets,     \* sequence of shard counts of the successive reshards (the final Stop follows them)
           MaxRec, MaxFatal,   \* bounds on injected recoverable / non-recoverable send errors
           Timer,       \* TRUE: the BatchSendDeadline timer may fire at any time
-          EmitMode
+          EmitMode,
+          Record       \* FALSE: no history variable (liveness checking without VIEW)
 
 VARIABLES wpos,      \* index in Wal of the sample the watcher is trying to enqueue
           n,         \* current number of shards
@@ -70,7 +71,7 @@ Init ==
   /\ received = <<>> /\ lostFatal = {} /\ nrec = 0 /\ nfatal = 0
   /\ hist = <<>>
 
-Log(rec) == hist' = Append(hist, rec)
+Log(rec) == hist' = IF Record THEN Append(hist, rec) ELSE hist
 
 -----------------------------------------------------------------------------
 (* Watcher: one enqueue attempt of QueueManager.Append.                      *)
